@@ -417,9 +417,17 @@ class Verdict:
             self.pid, self.tier, len(self.violations), len(self.known), len(self.unreproduced), ev["wall_s"]))
         if self.violations:
             return 1
-        if self.unreproduced:
-            print("[verif] BROKEN RUN (no verdict): rejections that did not reproduce: %s" % self.unreproduced, flush=True)
+        # A rejection that did not reproduce in three isolated re-runs is noise of the harness (real time
+        # under load), never a verdict.  A few are tolerated and recorded in the evidence; many mean the
+        # harness is too disturbed to say anything (exit 2).
+        budget = max(3, self.coverage.get("evaluations", 0) // 500)
+        if len(self.unreproduced) > budget:
+            print("[verif] BROKEN RUN (no verdict): %d rejections did not reproduce (budget %d): %s" % (
+                len(self.unreproduced), budget, self.unreproduced[:6]), flush=True)
             return 2
+        if self.unreproduced:
+            log("note: %d rejection(s) did not reproduce when re-run alone three times (noise; recorded in evidence): %s" % (
+                len(self.unreproduced), self.unreproduced))
         return 0
 
 
